@@ -330,19 +330,12 @@ func ruleC10Stdout(c *Ctx) {
 	// every use of stdout
 	fns := append([]*ssa.Function{mainImpl}, mainImpl.AnonFuncs...)
 	usesStdout := func(v ssa.Value) bool {
-		for i := 0; i < 4; i++ {
-			switch x := v.(type) {
-			case *ssa.MakeInterface:
-				v = x.X
-				continue
-			case *ssa.ChangeInterface:
-				v = x.X
-				continue
+		if _, isIface := v.Type().Underlying().(*types.Interface); !isIface {
+			if _, fw := c.forwardingWriterField(v.Type()); !fw {
+				return false
 			}
-			break
 		}
-		v = c.resolve(v)
-		return v == ssa.Value(stdout)
+		return c.writerOrigin(v) == ssa.Value(stdout)
 	}
 	nReport := 0
 	for _, f := range fns {
